@@ -478,6 +478,9 @@ def run(ctx):
     # slot - the same exploration as C15's pool slice, whose conservation claims belong to this property
     import C15_pool
     C15_pool.check_supervision(ctx, prog)
+    # hypothesis H2: the dead incarnation's completion report handled after the replacement was given a job of the same key
+    import C13_stale
+    C13_stale.check(ctx, prog)
     ctx.bounds['worker_death'] = 'Factory::handle_supervisor_evt from every pool shape of C15_pool (pool_size 1..3 of 4 slots, draining workers busy, with / without one job queued behind the in-flight one)'
 
 
@@ -485,6 +488,11 @@ def replay_file(path):
     import json
     import C13_replay
     d = json.load(open(path))
+    if d['replay'].get('which') == 'stale':
+        import C13_stale_replay
+        r = C13_stale_replay.replay(d['replay']['qkey'])
+        print(r['detail'])
+        return 1 if r['replayed'] else 0
     if d['replay'].get('which') == 'pool':
         import C15_pool_replay
         r = C15_pool_replay.replay(d['replay']['rp'])
